@@ -92,8 +92,8 @@ class Ipmitool(object):
         if self._session.auth_type == Session.AUTH_TYPE_NONE:
             cmd += (' -A NONE')
         elif self._session.auth_type == Session.AUTH_TYPE_PASSWORD:
-            cmd += (' -U "%s"' % self._session.auth_username)
-            cmd += (' -P "%s"' % self._session.auth_password)
+            cmd += (' -U "%s"' % self._quote(self._session.auth_username))
+            cmd += (' -P "%s"' % self._quote(self._session.auth_password))
         cmd += (' session info all')
 
         _, rc = self._run_ipmitool(cmd)
@@ -197,6 +197,11 @@ class Ipmitool(object):
         return rsp
 
     @staticmethod
+    def _quote(value):
+        """Escape what the shell still interprets inside double quotes."""
+        return ''.join('\\' + c if c in '\\"$`' else c for c in '%s' % value)
+
+    @staticmethod
     def _build_ipmitool_raw_data(lun, netfn, raw):
         cmd = ' -l {:d} raw '.format(lun)
         cmd += ' '.join(['0x%02x' % (d)
@@ -255,8 +260,8 @@ class Ipmitool(object):
         if self._session.auth_type == Session.AUTH_TYPE_NONE:
             cmd += ' -P ""'
         elif self._session.auth_type == Session.AUTH_TYPE_PASSWORD:
-            cmd += (' -U "%s"' % self._session.auth_username)
-            cmd += (' -P "%s"' % self._session.auth_password)
+            cmd += (' -U "%s"' % self._quote(self._session.auth_username))
+            cmd += (' -P "%s"' % self._quote(self._session.auth_password))
         else:
             raise RuntimeError('Session type %d not supported' %
                                self._session.auth_type)
